@@ -154,6 +154,7 @@ struct Driver {
     /// how many very large bulk calls (hundreds to ~1600 items) this sequence may still make
     big_left: u32,
     big_items: u64,
+    big_calls_with_repeated_ids: u64,
 }
 
 /// Batch sizes around the limits bulk implementations chunk at.
@@ -164,10 +165,11 @@ impl Driver {
     fn bulk_size(&mut self) -> usize {
         if self.big_left > 0 && self.rng.gen_bool(0.3) {
             self.big_left -= 1;
-            if self.rng.gen_bool(0.7) {
-                *BIG_BATCHES.choose(&mut self.rng).unwrap()
-            } else {
-                self.rng.gen_range(300..1_600)
+            match self.rng.gen_range(0..10) {
+                0..=4 => *BIG_BATCHES.choose(&mut self.rng).unwrap(),
+                5 | 6 => self.rng.gen_range(300..1_600),
+                // medium sizes: beyond what small-input fast paths of sorts / chunking handle
+                _ => *[20usize, 21, 32, 33, 34, 48, 64, 65, 100, 128, 199].choose(&mut self.rng).unwrap(),
             }
         } else {
             self.rng.gen_range(0..5)
@@ -239,22 +241,34 @@ impl Driver {
                 3 | 4 => {
                     let n = self.bulk_size();
                     let mut docs = Vec::new();
-                    if n >= 200 {
+                    let mut repeated = Vec::new();
+                    if n >= 20 {
                         for id in self.block_ids(n) {
                             let ts = self.gen_ts();
                             let d: Vec<u8> = (0..self.rng.gen_range(0..3u8)).map(|b| b ^ id as u8).collect();
                             docs.push(Document::new(id, ts, d));
                         }
+                        // ids repeated inside one large bulk call (model: applied in iteration order, the last one stays)
+                        if self.rng.gen_bool(0.6) {
+                            for _ in 0..self.rng.gen_range(1..6) {
+                                let id = docs.choose(&mut self.rng).map(|d: &Document| d.id()).unwrap();
+                                let pos = self.rng.gen_range(0..=docs.len());
+                                let (ts, d) = (self.gen_ts(), vec![0xD0u8, self.rng.gen(), self.rng.gen()]);
+                                docs.insert(pos, Document::new(id, ts, d));
+                                repeated.push(json!([id, ts_json(ts)]));
+                            }
+                            self.big_calls_with_repeated_ids += 1;
+                        }
                     }
-                    for _ in 0..(if n >= 200 { 0 } else { n }) {
+                    for _ in 0..(if n >= 20 { 0 } else { n }) {
                         // duplicates inside one bulk call happen (model: applied in iteration order)
                         let id = if !docs.is_empty() && self.rng.gen_bool(0.2) { docs.choose(&mut self.rng).map(|d: &Document| d.id()).unwrap() } else { self.gen_id() };
                         let (ts, d) = (self.gen_ts(), self.gen_payload());
                         docs.push(Document::new(id, ts, d));
                     }
                     call = "multi_put";
-                    if docs.len() >= 200 {
-                        self.trace.push(json!({"multi_put": [ks, {"items": docs.len(), "first_id": docs[0].id(), "ids": "first_id .. first_id+items"}]}));
+                    if docs.len() >= 20 {
+                        self.trace.push(json!({"multi_put": [ks, {"items": docs.len(), "first_id": docs.iter().map(|d| d.id()).min(), "ids": "a dense block from first_id", "ids_named_twice_(id,stamp_of_the_inserted_copy)": repeated}]}));
                     } else {
                         self.trace.push(json!({"multi_put": [ks, docs.iter().map(|d| json!([d.id(), ts_json(d.last_updated()), d.data().len()])).collect::<Vec<_>>()]}));
                     }
@@ -273,13 +287,13 @@ impl Driver {
                 },
                 7 | 8 => {
                     let n = self.bulk_size();
-                    let docs: Vec<DocumentMetadata> = if n >= 200 {
+                    let docs: Vec<DocumentMetadata> = if n >= 20 {
                         self.block_ids(n).into_iter().map(|id| DocumentMetadata::new(id, self.gen_ts())).collect()
                     } else {
                         (0..n).map(|_| DocumentMetadata::new(self.gen_id(), self.gen_ts())).collect()
                     };
                     call = "mark_many_as_tombstone";
-                    if docs.len() >= 200 {
+                    if docs.len() >= 20 {
                         self.trace.push(json!({"mark_many_as_tombstone": [ks, {"items": docs.len(), "first_id": docs[0].id, "ids": "first_id .. first_id+items"}]}));
                     } else {
                         self.trace.push(json!({"mark_many_as_tombstone": [ks, docs.iter().map(|d| json!([d.id, ts_json(d.last_updated)])).collect::<Vec<_>>()]}));
@@ -357,6 +371,7 @@ async fn c17_sequence(backend: Backend, seed: u64, i: u64, root: &Path) -> CaseO
         // one sequence in eight makes one very large bulk call
         big_left: if i % 8 == 2 { 1 } else { 0 },
         big_items: 0,
+        big_calls_with_repeated_ids: 0,
     };
     let segments = if matches!(backend, Backend::SqliteFile | Backend::Lmdb) { d.rng.gen_range(2..=4) } else { 1 };
     let total_steps = d.rng.gen_range(20..=60);
@@ -452,6 +467,7 @@ async fn c17_sequence(backend: Backend, seed: u64, i: u64, root: &Path) -> CaseO
     out.count("oracle_reads", d.reads);
     out.count("tombstones_written", d.tombstones_made);
     out.count("items_in_very_large_bulk_calls", d.big_items);
+    out.count("large_bulk_calls_naming_an_id_twice", d.big_calls_with_repeated_ids);
     out.count("reopens", reopens);
     out.counts.push((
         match backend {
